@@ -39,6 +39,9 @@ def execute(specs, model, bres, chk, stream='whole-file', want_live_desc=False):
             r.case = {'index': i, 'spec': describe(spec)}
             chk.count(f'{stream}:{r.res["status"]}' + (f':{r.res["stage"]}:{r.res["error"]}'
                                                        if r.res['status'] != 'ok' else ''))
+            if r.res['status'] != 'ok' and 'DatasetNameCollision' in str(r.res['error']):
+                chk.fail('dataset-names:collision', r.case, 'two channels of one logical file were given the same data set name '
+                                                            '(the data of one would be written for both)')
             r.live = None
             if want_live_desc and r.res['status'] == 'ok':
                 # descriptions of the sets as they are after the write (defaults applied), in generator order
@@ -95,6 +98,9 @@ def rewrite_runs(prop, tier, model, bres, chk, n_quick, n_thorough, stream='rewr
             st0, b = call(filegen.build, spec)
             if st0 != 'ok':
                 chk.count(f'{stream}:build-{b}')
+                if 'DatasetNameCollision' in str(b):
+                    chk.fail('dataset-names:collision', {'index': i, 'spec': describe(spec)},
+                             'two channels of one logical file were given the same data set name')
                 continue
             p1 = f'{tmp}/w1.dlis'
             kw1 = dict(output_chunk_size=2**20)
@@ -246,7 +252,7 @@ def rewrite_runs(prop, tier, model, bres, chk, n_quick, n_thorough, stream='rewr
 def refused_then_corrected(prop, tier, model, bres, chk, n_quick, n_thorough, stream='refused-then-corrected'):
     """a write refused while a set was being turned into bytes (an object that is inconsistent only at write time: a
     PARAMETER with several values and no zones, a COMPUTATION whose values and zones differ in number, a CHANNEL whose
-    element limit is below its dimension), the object corrected through its attributes, the same DLISFile written
+    element limit is below its dimension, a CALIBRATION-MEASUREMENT whose attributes disagree in shape), the object corrected through its attributes, the same DLISFile written
     again: the file must be the one a fresh specification (built with the corrected object) gives"""
     R = rng(prop, stream)
     n = n_quick if tier == 'quick' else n_thorough
@@ -258,7 +264,8 @@ def refused_then_corrected(prop, tier, model, bres, chk, n_quick, n_thorough, st
                                   'output_chunk_size': 2**20})
             spec['hc'] = False
             spec['object_routes'] = False
-            kind = R.choice(['parameter', 'parameter-shaped', 'computation', 'computation-shaped', 'channel-limit'])
+            kind = R.choice(['parameter', 'parameter-shaped', 'computation', 'computation-shaped', 'channel-limit',
+                             'calibration-shapes', 'calibration-shapes'])
             position = R.choice(['first', 'last'])
 
             def add_object(b, good):
@@ -275,6 +282,12 @@ def refused_then_corrected(prop, tier, model, bres, chk, n_quick, n_thorough, st
                 if kind == 'computation-shaped':
                     z = L.add_zone('LATE-Z')
                     return L.add_computation('LATE-C', values=[[1.0, 2.0, 3.0]] if good else [[1.0], [2.0]], zones=[z])
+                if kind == 'calibration-shapes':
+                    # two of the measurement attributes disagree in their per-value shape and no dimension is given: the
+                    # first fixes the dimension, the second is refused against it; corrected by reshaping the FIRST
+                    return L.add_calibration_measurement(
+                        'LATE-M', maximum_deviation=[[1.0, 2.0, 3.0], [4.0, 5.0, 6.0]] if good else [[1.0, 2.0], [3.0, 4.0]],
+                        standard_deviation=[[1.5, 2.5, 3.5], [4.5, 5.5, 6.5]])
                 return L.add_channel('LATE-CH', dimension=[4], element_limit=[4] if good else [2],
                                      data=np.zeros((3, 4)))
 
@@ -287,6 +300,8 @@ def refused_then_corrected(prop, tier, model, bres, chk, n_quick, n_thorough, st
                     obj.values.value = [1.0]
                 elif kind == 'computation-shaped':
                     obj.values.value = [[1.0, 2.0, 3.0]]
+                elif kind == 'calibration-shapes':
+                    obj.maximum_deviation.value = [[1.0, 2.0, 3.0], [4.0, 5.0, 6.0]]
                 else:
                     obj.element_limit.value = [4]
             stf, bf = call(filegen.build, spec)
